@@ -64,7 +64,7 @@ Qed.
 
 (* the dumper's six-digit decimal string of n + m/10^6 *)
 Lemma decimal_string_of : forall x (n m : Z), (0 <= n)%Z -> (0 <= m < 1000000)%Z ->
-  x == inject_Z n + inject_Z m / 1000000 ->
+  x == inject_Z n + inject_Z m * (1 # 1000000) ->
   decimal_string x = (let s := strip_zeros (pad_num 6 m) in if String.eqb s "" then "0"%string else s).
 Proof.
   intros x n m N M E. unfold decimal_string.
@@ -74,7 +74,7 @@ Proof.
   assert (T : qtrunc x = n).
   { rewrite qtrunc_nonneg by lra. apply floor_unique; [lra|]. rewrite inject_Z_plus. change (inject_Z 1) with 1. lra. }
   rewrite T. set (fr := Qred (x - qz n)).
-  assert (FR : fr == inject_Z m / 1000000) by (unfold fr, qz; rewrite Qred_correct; lra).
+  assert (FR : fr == inject_Z m * (1 # 1000000)) by (unfold fr, qz; rewrite Qred_correct; lra).
   assert (Q1 : qleb (9999995 # 10000000) fr = false).
   { destruct (qleb (9999995 # 10000000) fr) eqn:Q; [|reflexivity]. apply qleb_iff in Q. lra. }
   rewrite Q1.
@@ -87,7 +87,7 @@ Qed.
 
 Lemma frac_of_six : forall f g k j, digits_plus f = true -> f = (g ++ zeros k)%string ->
   (String.length g + j = 6)%nat ->
-  frac_of f == inject_Z (dnum g * 10 ^ Z.of_nat j) / 1000000.
+  frac_of f == inject_Z (dnum g * 10 ^ Z.of_nat j) * (1 # 1000000).
 Proof.
   intros f g k j D E LJ. pose proof (frac_of_scaled f 0 D) as S.
   assert (A : all_digits f = true) by (unfold digits_plus in D; apply andb_true_iff in D; tauto).
@@ -107,8 +107,8 @@ Proof.
   rewrite <- inject_Z_mult in ID.
   set (C := inject_Z (dnum g * 10 ^ Z.of_nat j)) in *. set (B := inject_Z (dnum g * 10 ^ Z.of_nat k)) in *.
   apply (Qmult_inj_r _ _ (inject_Z P)); [lra|]. rewrite S.
-  unfold Qdiv. setoid_replace (C * / 1000000 * inject_Z P) with ((C * inject_Z P) * / 1000000) by ring.
-  rewrite ID. field.
+  setoid_replace (C * (1 # 1000000) * inject_Z P) with ((C * inject_Z P) * (1 # 1000000)) by ring.
+  rewrite ID. unfold B. rewrite inject_Z_mult. ring.
 Qed.
 Close Scope Q_scope.
 
@@ -141,7 +141,8 @@ Proof.
   assert (PM : pad_num 6 m = g ++ zeros j).
   { rewrite <- (pad_dnum 6 _ DS) by lia. f_equal. unfold m.
     rewrite dnum_app by (try assumption; apply zeros_digits). rewrite zeros_length, dnum_zeros. lia. }
-  rewrite PM, strip_zeros_app_zeros. unfold canon. fold g. unfold g at 1 3. rewrite strip_idem. reflexivity.
+  assert (SG : strip_zeros g = g) by (unfold g; apply strip_idem).
+  rewrite PM, strip_zeros_app_zeros, SG. reflexivity.
 Qed.
 
 (* ------------------------------------------------------------------ *)
@@ -199,15 +200,15 @@ Proof.
       destruct (A nm' w ltac:(left; reflexivity)) as [PV FE]. rewrite PV.
       rewrite (IH ps a a' C4 W2 (agrees_tail _ _ _ _ _ _ (conj A (conj B D)))).
       rewrite pad_dnum by assumption. rewrite FE. reflexivity.
-    + apply andb_true_iff in C. destruct C as [E C]. apply String.eqb_eq in E. subst nm'.
-      cbn [wf_assign] in W. apply andb_true_iff in W. destruct W as [W1 W2].
-      cbn [render render_toks]. destruct G as (A & B & D).
-      rewrite (B nm ltac:(left; reflexivity)).
-      rewrite (IH ps a a' C W2 (agrees_tail _ _ _ _ _ _ (conj A (conj B D)))). reflexivity.
     + apply andb_true_iff in C. destruct C as [E C]. apply String.eqb_eq in E. subst nm.
       cbn [wf_assign] in W. apply andb_true_iff in W. destruct W as [W1 W2].
       cbn [render render_toks]. destruct G as (A & B & D).
       rewrite (D nm' ltac:(left; reflexivity)).
+      rewrite (IH ps a a' C W2 (agrees_tail _ _ _ _ _ _ (conj A (conj B D)))). reflexivity.
+    + apply andb_true_iff in C. destruct C as [E C]. apply String.eqb_eq in E. subst nm'.
+      cbn [wf_assign] in W. apply andb_true_iff in W. destruct W as [W1 W2].
+      cbn [render render_toks]. destruct G as (A & B & D).
+      rewrite (B nm ltac:(left; reflexivity)).
       rewrite (IH ps a a' C W2 (agrees_tail _ _ _ _ _ _ (conj A (conj B D)))). reflexivity.
 Qed.
 
@@ -233,7 +234,7 @@ Definition date_names_ok (ts : list ptok) : bool :=
                    (mem nm ["expanded_year"; "month_of_year"; "day_of_month"; "day_of_year"; "week_of_year"; "day_of_week"] && Nat.leb 1 w)
     | PSign nm => String.eqb nm "year_sign"
     | PDigs _ => false | PUnix _ => false | _ => true end) ts &&
-  Bool.eqb (binds "year_sign" ts) (binds "expanded_year" ts) && binds "year_of_century" ts.
+  Bool.eqb (binds "year_sign" ts) (binds "expanded_year" ts).
 Definition time_names_ok (ts : list ptok) : bool :=
   forallb (fun t => match t with
     | PDig nm w => mem nm ["hour_of_day"; "minute_of_hour"; "second_of_minute"] && Nat.leb 1 w
@@ -241,6 +242,325 @@ Definition time_names_ok (ts : list ptok) : bool :=
     | PSign _ => false | PUnix _ => false | _ => true end) ts.
 Definition zone_names_ok (ts : list ptok) : bool :=
   forallb (fun t => match t with
-    | PDig nm w => mem nm ["time_zone_hour"; "time_zone_minute"] && Nat.leb 1 w
-    | PSign nm => String.eqb nm "time_zone_sign"
+    | PDig nm w => mem nm ["time_zone_hour"; "time_zone_minute"] && Nat.leb 1 w && negb (binds "time_zone_utc" ts)
+    | PSign nm => String.eqb nm "time_zone_sign" && negb (binds "time_zone_utc" ts)
     | PDigs _ => false | PUnix _ => false | _ => true end) ts.
+
+(* ------------------------------------------------------------------ *)
+(* 3. the dump properties of the decoded point                         *)
+(* ------------------------------------------------------------------ *)
+Lemma wf_In_dig : forall ts a nm w, wf_assign ts a = true -> In (PDig nm w) ts -> digits_n w (fld nm a) = true.
+Proof.
+  induction ts as [|t ts IH]; intros a nm w W I; [destruct I|].
+  destruct I as [E|I].
+  - subst t. cbn [wf_assign] in W. apply andb_true_iff in W. tauto.
+  - apply IH; [|exact I]. destruct t; cbn [wf_assign] in W; try exact W; apply andb_true_iff in W; tauto.
+Qed.
+Lemma wf_In_digs : forall ts a nm, wf_assign ts a = true -> In (PDigs nm) ts -> digits_plus (fld nm a) = true.
+Proof.
+  induction ts as [|t ts IH]; intros a nm W I; [destruct I|].
+  destruct I as [E|I].
+  - subst t. cbn [wf_assign] in W. apply andb_true_iff in W. tauto.
+  - apply IH; [|exact I]. destruct t; cbn [wf_assign] in W; try exact W; apply andb_true_iff in W; tauto.
+Qed.
+Lemma wf_In_sign : forall ts a nm, wf_assign ts a = true -> In (PSign nm) ts -> is_sign (fld nm a) = true.
+Proof.
+  induction ts as [|t ts IH]; intros a nm W I; [destruct I|].
+  destruct I as [E|I].
+  - subst t. cbn [wf_assign] in W. apply andb_true_iff in W. tauto.
+  - apply IH; [|exact I]. destruct t; cbn [wf_assign] in W; try exact W; apply andb_true_iff in W; tauto.
+Qed.
+
+Lemma digits_n_range : forall w s, digits_n w s = true -> (0 <= dnum s < 10 ^ Z.of_nat w)%Z.
+Proof. intros w s D. apply digits_n_inv in D. destruct D as [L A]. rewrite <- L. apply dnum_lt. exact A. Qed.
+
+Lemma binds_In : forall k ts, binds k ts = true -> exists t, In t ts /\ tok_name t = Some k.
+Proof.
+  intros k ts B. unfold binds in B. apply existsb_exists in B. destruct B as [t [I E]]. exists t. split; [exact I|].
+  destruct (tok_name t) as [nm|]; [|discriminate]. apply String.eqb_eq in E. subst nm. reflexivity.
+Qed.
+
+(* a bound numeric key of a well-formed assignment is a non-negative number *)
+Lemma fval_nonneg : forall keys ts a k, num_keys_ok keys ts = true -> wf_assign ts a = true -> In k keys ->
+  (0 <= fval k ts a)%Z.
+Proof.
+  intros keys ts a k N W K. unfold fval, fnum. destruct (fget k ts a) as [s|] eqn:F; cbn [option_map od]; [|lia].
+  pose proof (fget_digits keys ts a k s N W K F) as D. unfold digits_plus in D. apply andb_true_iff in D.
+  apply dnum_nonneg. tauto.
+Qed.
+
+Ltac mem_cases H :=
+  unfold mem in H; cbn [existsb] in H;
+  repeat match type of H with
+         | context [String.eqb ?x ?lit] =>
+           let E := fresh "E" in destruct (String.eqb x lit) eqn:E;
+           [apply String.eqb_eq in E; subst x|]
+         end; cbn [orb andb] in H; try discriminate H.
+
+(* the two-digit year groups *)
+Lemma two_digit_key : forall ts a k, date_names_ok ts = true -> num_keys_ok DATE_KEYS ts = true -> wf_assign ts a = true ->
+  In k ["century"; "year_of_century"] -> (0 <= fval k ts a < 100)%Z.
+Proof.
+  intros ts a k NO K W IK. destruct (binds k ts) eqn:B; [|rewrite fval_unbound by assumption; lia].
+  rewrite (fval_bound k ts a B).
+  destruct (binds_In k ts B) as [t [I T]].
+  unfold date_names_ok in NO. apply andb_true_iff in NO. destruct NO as [NO _].
+  rewrite forallb_forall in NO. specialize (NO t I).
+  unfold num_keys_ok in K. rewrite forallb_forall in K. specialize (K t I).
+  assert (MK : mem k DATE_KEYS = true).
+  { destruct IK as [<-|[<-|[]]]; reflexivity. }
+  destruct t as [l|nm w|nm|nm|nm l|nm]; cbn [tok_name] in T; inversion T; subst nm; try discriminate NO.
+  - assert (W2 : w = 2%nat).
+    { destruct IK as [<-|[<-|[]]]; cbn in NO; rewrite ?orb_false_r in NO; apply Nat.eqb_eq in NO; exact NO. }
+    subst w. apply (digits_n_range 2). apply (wf_In_dig ts a k 2 W I).
+  - apply String.eqb_eq in NO. subst k. destruct IK as [X|[X|[]]]; discriminate X.
+  - rewrite MK in K. discriminate K.
+Qed.
+
+Lemma abs_signed : forall sg v, (0 <= v)%Z -> Z.abs (signed sg v) = v.
+Proof. intros sg v V. unfold signed. destruct sg as [s|]; [destruct (String.eqb s "-")|]; lia. Qed.
+
+Theorem date_agrees : forall md dt ad t z,
+  date_full_shape dt = true -> date_names_ok dt = true -> wf_assign dt ad = true ->
+  (fget "year_sign" dt ad = Some "-" -> x_year dt ad <> 0%Z) ->
+  agrees md (mkTp (x_date dt ad) t z) dt ad ad.
+Proof.
+  intros md dt ad t z S NO W NZ.
+  pose proof S as S'. unfold date_full_shape in S'. cbv zeta in S'.
+  apply andb_true_iff in S'. destruct S' as [S1 Sh]. apply andb_true_iff in S1. destruct S1 as [S1 K].
+  apply andb_true_iff in S1. destruct S1 as [S1 Ns]. apply andb_true_iff in S1. destruct S1 as [S1 Bd].
+  apply andb_true_iff in S1. destruct S1 as [Bt Bc].
+  pose proof NO as NO'. unfold date_names_ok in NO'.
+  apply andb_true_iff in NO'. destruct NO' as [NF SE]. rewrite forallb_forall in NF.
+  set (Y := fval "year_of_century" dt ad). set (Cc := fval "century" dt ad). set (X := fval "expanded_year" dt ad).
+  assert (RY : (0 <= Y < 100)%Z) by (apply two_digit_key; try assumption; simpl; auto).
+  assert (RC : (0 <= Cc < 100)%Z) by (apply two_digit_key; try assumption; simpl; auto).
+  assert (RX : (0 <= X)%Z) by (apply (fval_nonneg DATE_KEYS); try assumption; in_keys).
+  assert (AY : Z.abs (x_year dt ad) = (Y + 100 * Cc + 10000 * X)%Z) by (unfold x_year; apply abs_signed; lia).
+  split; [|split].
+  - (* digit groups *)
+    intros nm w H. split; [|reflexivity].
+    pose proof (NF _ H) as N1. cbv beta iota in N1.
+    pose proof (In_binds _ _ nm H eq_refl) as B.
+    apply orb_true_iff in N1. destruct N1 as [N1|N1]; apply andb_true_iff in N1; destruct N1 as [N1 N2]; mem_cases N1.
+    + rewrite pv_century, x_date_year, AY. f_equal. fold Cc in RC. unfold Cc in *. rewrite <- (fval_bound _ _ _ B). fold Cc. lia.
+    + rewrite pv_yoc, x_date_year, AY. f_equal. rewrite <- (fval_bound _ _ _ B). fold Y. lia.
+    + change (dname "expanded_year") with "expanded_year_digits".
+      rewrite pv_xyd, x_date_year, AY. f_equal. rewrite <- (fval_bound _ _ _ B). fold X. lia.
+    + change (dname "month_of_year") with "month_of_year". rewrite pv_moy. unfold x_date. cbv zeta.
+      destruct (binds "day_of_year" dt) eqn:B1; [rewrite B in Sh; discriminate Sh|].
+      destruct (binds "week_of_year" dt) eqn:B2; [rewrite B in Sh; discriminate Sh|].
+      cbn [get_calendar_date]. rewrite fval1_bound by assumption. reflexivity.
+    + change (dname "day_of_month") with "day_of_month". rewrite pv_dom. unfold x_date. cbv zeta.
+      destruct (binds "day_of_year" dt) eqn:B1; [rewrite B, andb_false_r in Sh; discriminate Sh|].
+      destruct (binds "week_of_year" dt) eqn:B2; [rewrite B, andb_false_r in Sh; discriminate Sh|].
+      cbn [get_calendar_date]. rewrite fval1_bound by assumption. reflexivity.
+    + change (dname "day_of_year") with "day_of_year". rewrite pv_doy. unfold x_date. cbv zeta. rewrite B.
+      cbn [get_ordinal_date]. rewrite fval_bound by assumption. reflexivity.
+    + change (dname "week_of_year") with "week_of_year". rewrite pv_woy. unfold x_date. cbv zeta.
+      destruct (binds "day_of_year" dt) eqn:B1; [rewrite B, !andb_false_r in Sh; cbn [andb] in Sh; discriminate Sh|].
+      rewrite B. cbn [get_week_date]. rewrite fval_bound by assumption. reflexivity.
+    + change (dname "day_of_week") with "day_of_week". rewrite pv_dow. unfold x_date. cbv zeta.
+      destruct (binds "day_of_year" dt) eqn:B1; [rewrite B, !andb_false_r in Sh; discriminate Sh|].
+      destruct (binds "week_of_year" dt) eqn:B2; [|rewrite B in Sh; discriminate Sh].
+      cbn [get_week_date]. rewrite fval1_bound by assumption. reflexivity.
+  - (* the sign *)
+    intros nm H.
+    pose proof (NF _ H) as N1. cbv beta iota in N1. apply String.eqb_eq in N1. subst nm.
+    pose proof (In_binds _ _ "year_sign" H eq_refl) as B.
+    rewrite pv_ysign, x_date_year. f_equal.
+    pose proof (wf_In_sign dt ad _ W H) as SG. apply is_sign_inv in SG.
+    assert (V : (0 <= Y + 100 * Cc + 10000 * X)%Z) by lia.
+    unfold x_year in *. fold Y Cc X in NZ |- *. rewrite (fget_bound _ _ _ B) in *. unfold signed in *.
+    destruct SG as [E|E]; rewrite E in *; cbn [String.eqb Ascii.eqb Bool.eqb] in *.
+    + destruct (0 <=? Y + 100 * Cc + 10000 * X)%Z eqn:Q; [reflexivity|lia].
+    + specialize (NZ eq_refl). destruct (0 <=? - (Y + 100 * Cc + 10000 * X))%Z eqn:Q; [lia|reflexivity].
+  - (* no digit runs in a date *)
+    intros nm H. pose proof (NF _ H) as N1. discriminate N1.
+Qed.
+
+Lemma dec_fits_key : forall tt atm k f, dec_fits tt atm = true ->
+  In k ["hour_of_day_decimal"; "minute_of_hour_decimal"; "second_of_minute_decimal"] ->
+  fget k tt atm = Some f -> frac6 f = true.
+Proof.
+  intros tt atm k f D I F. unfold dec_fits in D. rewrite forallb_forall in D. specialize (D k I).
+  rewrite F in D. exact D.
+Qed.
+
+Theorem time_agrees : forall md d tt atm z,
+  time_full_shape tt = true -> time_names_ok tt = true -> wf_assign tt atm = true -> dec_fits tt atm = true ->
+  agrees md (mkTp d (x_tod tt atm) z) tt atm (canon_env atm).
+Proof.
+  intros md d tt atm z S NO W DF.
+  pose proof S as S'. unfold time_full_shape in S'. cbv zeta in S'.
+  apply andb_true_iff in S'. destruct S' as [S1 Sh]. apply andb_true_iff in S1. destruct S1 as [S1 K].
+  apply andb_true_iff in S1. destruct S1 as [_ Bh].
+  unfold time_names_ok in NO. rewrite forallb_forall in NO.
+  assert (NN : forall k, In k TIME_KEYS -> (0 <= fval k tt atm)%Z)
+    by (intros; apply (fval_nonneg TIME_KEYS); assumption).
+  assert (FR : forall k f, In k TIME_KEYS -> fget k tt atm = Some f ->
+               digits_plus f = true /\ (0 <= frac_of f)%Q /\ (frac_of f < 1)%Q).
+  { intros k f I F. pose proof (fget_digits TIME_KEYS tt atm k f K W I F) as D. split; [exact D|].
+    pose proof (frac_of_range f D) as R. apply andb_true_iff in R. destruct R as [R1 R2].
+    apply qleb_iff in R1. apply qltb_iff in R2. tauto. }
+  pose proof (NN "hour_of_day" ltac:(in_keys)) as NH.
+  pose proof (NN "minute_of_hour" ltac:(in_keys)) as NM.
+  pose proof (NN "second_of_minute" ltac:(in_keys)) as NS.
+  pose proof (FR "hour_of_day_decimal") as F1. pose proof (FR "minute_of_hour_decimal") as F2.
+  pose proof (FR "second_of_minute_decimal") as F3.
+  pose proof (fun f => dec_fits_key tt atm "hour_of_day_decimal" f DF ltac:(simpl; auto)) as G1.
+  pose proof (fun f => dec_fits_key tt atm "minute_of_hour_decimal" f DF ltac:(simpl; auto)) as G2.
+  pose proof (fun f => dec_fits_key tt atm "second_of_minute_decimal" f DF ltac:(simpl; auto)) as G3.
+  clear NN FR.
+  split; [|split].
+  - (* digit groups *)
+    intros nm w H. pose proof (NO _ H) as N1. cbv beta iota in N1. apply andb_true_iff in N1. destruct N1 as [N1 _].
+    pose proof (In_binds _ _ nm H eq_refl) as B.
+    mem_cases N1; (split; [|reflexivity]).
+    + change (dname "hour_of_day") with "hour_of_day". rewrite pv_hour. f_equal.
+      rewrite <- (fval_bound _ _ _ B). unfold x_tod.
+      destruct (fget "hour_of_day_decimal" tt atm) as [f1|] eqn:E1;
+        [|destruct (fget "minute_of_hour_decimal" tt atm) as [f2|] eqn:E2;
+          [|destruct (fget "second_of_minute_decimal" tt atm) as [f3|] eqn:E3]]; cbn [tod_hour];
+        try apply qtrunc_qz.
+      destruct (F1 f1 ltac:(in_keys) eq_refl) as (_ & A1 & A2). apply qtrunc_int_frac; assumption.
+    + change (dname "minute_of_hour") with "minute_of_hour".
+      rewrite <- (fval_bound _ _ _ B). unfold x_tod.
+      destruct (fget "hour_of_day_decimal" tt atm) as [f1|] eqn:E1.
+      { exfalso. unfold fget in E1. destruct (binds "hour_of_day_decimal" tt); [|discriminate].
+        rewrite B in Sh. discriminate Sh. }
+      destruct (fget "minute_of_hour_decimal" tt atm) as [f2|] eqn:E2;
+        [|destruct (fget "second_of_minute_decimal" tt atm) as [f3|] eqn:E3].
+      * rewrite pv_min_hm. f_equal. destruct (F2 f2 ltac:(in_keys) eq_refl) as (_ & A1 & A2).
+        apply qtrunc_int_frac; assumption.
+      * rewrite pv_min_hms. f_equal. apply qtrunc_qz.
+      * rewrite pv_min_hms. f_equal. apply qtrunc_qz.
+    + change (dname "second_of_minute") with "second_of_minute".
+      rewrite <- (fval_bound _ _ _ B). unfold x_tod.
+      destruct (fget "hour_of_day_decimal" tt atm) as [f1|] eqn:E1.
+      { exfalso. unfold fget in E1. destruct (binds "hour_of_day_decimal" tt); [|discriminate].
+        rewrite B, andb_false_r in Sh. discriminate Sh. }
+      destruct (fget "minute_of_hour_decimal" tt atm) as [f2|] eqn:E2.
+      { exfalso. unfold fget in E1, E2. destruct (binds "hour_of_day_decimal" tt); [discriminate|].
+        destruct (binds "minute_of_hour_decimal" tt); [|discriminate].
+        rewrite B, andb_false_r in Sh. discriminate Sh. }
+      destruct (fget "second_of_minute_decimal" tt atm) as [f3|] eqn:E3.
+      * rewrite pv_sec_hms. f_equal. destruct (F3 f3 ltac:(in_keys) eq_refl) as (_ & A1 & A2).
+        apply qtrunc_int_frac; assumption.
+      * rewrite pv_sec_hms. f_equal. apply qtrunc_qz.
+  - intros nm H. pose proof (NO _ H) as N1. discriminate N1.
+  - (* the fractions *)
+    intros nm H. pose proof (NO _ H) as N1. cbv beta iota in N1.
+    pose proof (In_binds _ _ nm H eq_refl) as B. pose proof (fget_bound _ _ atm B) as FB.
+    mem_cases N1.
+    + change (fld "hour_of_day_decimal" (canon_env atm)) with (canon (fld "hour_of_day_decimal" atm)).
+      change ("hour_of_day_decimal" ++ "_string") with "hour_of_day_decimal_string".
+      rewrite pv_hourdec. f_equal. unfold x_tod. rewrite FB. cbn [tod_hour].
+      destruct (F1 _ ltac:(in_keys) FB) as (D & _). apply decimal_string_frac; auto.
+    + change (fld "minute_of_hour_decimal" (canon_env atm)) with (canon (fld "minute_of_hour_decimal" atm)).
+      change ("minute_of_hour_decimal" ++ "_string") with "minute_of_hour_decimal_string".
+      unfold x_tod. rewrite FB.
+      destruct (fget "hour_of_day_decimal" tt atm) as [f1|] eqn:E1.
+      { exfalso. unfold fget in E1. destruct (binds "hour_of_day_decimal" tt); [|discriminate].
+        rewrite B, !andb_false_r in Sh. cbn [andb] in Sh. rewrite ?andb_false_r in Sh. discriminate Sh. }
+      rewrite pv_mindec_hm. f_equal.
+      destruct (F2 _ ltac:(in_keys) FB) as (D & _). apply decimal_string_frac; auto.
+    + change (fld "second_of_minute_decimal" (canon_env atm)) with (canon (fld "second_of_minute_decimal" atm)).
+      change ("second_of_minute_decimal" ++ "_string") with "second_of_minute_decimal_string".
+      unfold x_tod. rewrite FB.
+      destruct (fget "hour_of_day_decimal" tt atm) as [f1|] eqn:E1.
+      { exfalso. unfold fget in E1. destruct (binds "hour_of_day_decimal" tt); [|discriminate].
+        rewrite B, !andb_false_r in Sh. discriminate Sh. }
+      destruct (fget "minute_of_hour_decimal" tt atm) as [f2|] eqn:E2.
+      { exfalso. unfold fget in E1, E2. destruct (binds "hour_of_day_decimal" tt); [discriminate|].
+        destruct (binds "minute_of_hour_decimal" tt); [|discriminate].
+        rewrite B, !andb_false_r in Sh. discriminate Sh. }
+      rewrite pv_secdec_hms. f_equal.
+      destruct (F3 _ ltac:(in_keys) FB) as (D & _). apply decimal_string_frac; auto.
+Qed.
+
+Theorem zone_agrees : forall md d t cfg fz az,
+  zone_shape (f_parse fz) = true -> zone_names_ok (f_parse fz) = true -> wf_assign (f_parse fz) az = true ->
+  (fget "time_zone_sign" (f_parse fz) az = Some "-" -> x_zone cfg (Some fz) az <> mkZone 0 0) ->
+  agrees md (mkTp d t (x_zone cfg (Some fz) az)) (f_parse fz) az az.
+Proof.
+  intros md d t cfg fz az S NO W NZ. set (zt := f_parse fz) in *.
+  unfold zone_shape in S. apply andb_true_iff in S. destruct S as [S _]. apply andb_true_iff in S. destruct S as [K _].
+  unfold zone_names_ok in NO. rewrite forallb_forall in NO.
+  pose proof (fval_nonneg ZONE_KEYS zt az "time_zone_hour" K W ltac:(in_keys)) as NH.
+  pose proof (fval_nonneg ZONE_KEYS zt az "time_zone_minute" K W ltac:(in_keys)) as NM.
+  cbn [x_zone] in *. fold zt in NZ |- *.
+  split; [|split].
+  - intros nm w H. pose proof (NO _ H) as N1. cbv beta iota in N1. apply andb_true_iff in N1. destruct N1 as [N1 U].
+    apply andb_true_iff in N1. destruct N1 as [N1 _]. apply negb_true_iff in U. rewrite U.
+    pose proof (In_binds _ _ nm H eq_refl) as B.
+    mem_cases N1; (split; [|reflexivity]).
+    + change (dname "time_zone_hour") with "time_zone_hour_abs". rewrite pv_zh. cbn [zh]. f_equal.
+      rewrite <- (fval_bound _ _ _ B). apply abs_signed. exact NH.
+    + change (dname "time_zone_minute") with "time_zone_minute_abs". rewrite pv_zm. cbn [zm]. f_equal.
+      rewrite <- (fval_bound _ _ _ B). apply abs_signed. exact NM.
+  - intros nm H. pose proof (NO _ H) as N1. cbv beta iota in N1. apply andb_true_iff in N1. destruct N1 as [N1 U].
+    apply String.eqb_eq in N1. subst nm. apply negb_true_iff in U. rewrite U in *.
+    pose proof (In_binds _ _ "time_zone_sign" H eq_refl) as B.
+    rewrite pv_zsign. f_equal. unfold zone_sign. cbn [zh zm].
+    pose proof (wf_In_sign zt az _ W H) as SG. apply is_sign_inv in SG.
+    rewrite (fget_bound _ _ _ B) in *. unfold signed in *.
+    set (Hh := fval "time_zone_hour" zt az) in *. set (Mm := fval "time_zone_minute" zt az) in *.
+    destruct SG as [E|E]; rewrite E in *; cbn [String.eqb Ascii.eqb Bool.eqb] in *.
+    + destruct ((Hh <? 0)%Z || (Mm <? 0)%Z) eqn:Q; [lia|reflexivity].
+    + specialize (NZ eq_refl). destruct ((- Hh <? 0)%Z || (- Mm <? 0)%Z) eqn:Q; [reflexivity|].
+      exfalso. apply NZ. f_equal; lia.
+  - intros nm H. pose proof (NO _ H) as N1. discriminate N1.
+Qed.
+
+(* ------------------------------------------------------------------ *)
+(* 4. the as-parsed format: its template, flags and bounds             *)
+(* ------------------------------------------------------------------ *)
+Lemma ptp_to_tp_of : forall q ned fmt, ptp_to_tp (ptp_of q ned fmt) = Some q.
+Proof. intros [d t z] ned fmt. destruct d, t; reflexivity. Qed.
+
+Definition zo_dump (zo : option form) : list dtok := match zo with Some fz => f_dump fz | None => [] end.
+Definition zo_props (zo : option form) : list string := match zo with Some fz => f_props fz | None => [] end.
+Definition zo_parse (zo : option form) : list ptok := match zo with Some fz => f_parse fz | None => [] end.
+Definition zo_cz (zo : option form) : option (Z * Z) :=
+  match zo with Some fz => if binds "time_zone_utc" (f_parse fz) then Some (0, 0)%Z else None | None => None end.
+Definition opt_zz_eqb (a b : option (Z * Z)) : bool :=
+  match a, b with
+  | None, None => true
+  | Some (x, y), Some (u, v) => (x =? u)%Z && (y =? v)%Z
+  | _, _ => false end.
+Lemma opt_zz_eqb_eq : forall a b, opt_zz_eqb a b = true -> a = b.
+Proof.
+  intros [[x y]|] [[u v]|] H; cbn in H; try discriminate; [|reflexivity].
+  apply andb_true_iff in H. destruct H as [A B]. apply Z.eqb_eq in A. apply Z.eqb_eq in B. subst. reflexivity.
+Qed.
+
+(* everything the dump of the as-parsed format needs to know about a triple
+   of forms; dned = the dumper's number of expanded year digits *)
+Definition asp_ok (dned : Z) (fd ft : form) (zo : option form) : bool :=
+  let fmt := f_expr fd ++ "T" ++ f_expr ft ++ zo_expr zo in
+  let props := (f_props fd ++ f_props ft ++ zo_props zo)%list in
+  let cal := mem "month_of_year" props || mem "day_of_month" props || mem "day_of_year" props in
+  negb (contains_char "%" fmt) &&
+  match expression_of (date_forms_of dned) TIME_FORMS ZONE_FORMS zone_of_text fmt with
+  | inl (Some (tmpl, pr, cz)) =>
+    dtoks_eqb tmpl (f_dump fd ++ [DLit "T"] ++ f_dump ft ++ zo_dump zo)%list && strs_eqb pr props &&
+    opt_zz_eqb cz (zo_cz zo)
+  | _ => false end &&
+  Bool.eqb (mem "week_of_year" props || mem "day_of_week" props) (binds "week_of_year" (f_parse fd)) &&
+  implb (binds "week_of_year" (f_parse fd)) (negb cal) &&
+  mem "century" props && Bool.eqb (mem "expanded_year_digits" props) (binds "expanded_year" (f_parse fd)) &&
+  corr (f_dump fd) (f_parse fd) && corr (f_dump ft) (f_parse ft) && corr (zo_dump zo) (zo_parse zo) &&
+  date_names_ok (f_parse fd) && time_names_ok (f_parse ft) && zone_names_ok (zo_parse zo) &&
+  forallb (fun t => match t with
+                    | PDig nm w => negb (String.eqb nm "expanded_year") || (Z.of_nat w =? dned)%Z
+                    | _ => true end) (f_parse fd).
+
+Definition dump_ned (n : Z) (fd : form) : Z := if binds "expanded_year" (f_parse fd) then n else 0%Z.
+Definition all_zos : list (option form) := None :: map Some ZONE_FORMS.
+Theorem tables_asp :
+  forallb (fun n =>
+    forallb (fun fd => negb (String.eqb (f_type fd) "complete") || ((n =? 0)%Z && binds "expanded_year" (f_parse fd)) ||
+      forallb (fun ft => negb (not_trunc ft) ||
+        forallb (fun zo => asp_ok (dump_ned n fd) fd ft zo) all_zos) TIME_FORMS) (date_forms_of n)) [0; 2; 3]%Z = true.
+Proof. vm_compute. reflexivity. Qed.
